@@ -221,7 +221,9 @@ impl<'a, R: 'a + Read> CompressionLayerReader<'a, R> {
                 Ok(brotli::Decompressor::new(
                     // Make the Decompressor work only on the compressed block's bytes, no more
                     inner.take(compressed_block_size as u64),
-                    compressed_block_size,
+                    // The size comes from the archive: do not allocate more than a
+                    // block's worth of buffer on its behalf
+                    std::cmp::min(compressed_block_size, UNCOMPRESSED_DATA_SIZE as usize),
                 ))
             }
             None => Err(Error::MissingMetadata),
